@@ -70,6 +70,16 @@ class Suppression:
 
 
 SUPPRESSIONS = [
+    *[
+        Suppression(
+            "aiomysensors.*",
+            r"\.readexactly\(\w+\.consumed\)$",
+            exc_,
+            "asyncio contract of LimitOverrunError: `consumed` bytes are in the reader's buffer when readuntil raises it, so readexactly(err.consumed) called at once in the handler returns without waiting (no EOF, n >= 0) and the reader's stored exception was None when readuntil was entered",
+            "consumed_in_limit_handler",
+        )
+        for exc_ in ("asyncio.exceptions.IncompleteReadError", "builtins.OSError", "builtins.ValueError")
+    ],
     Suppression(
         "aiomysensors.transport.mqtt.MQTTTransport.read",
         r"self\._incoming_messages\.task_done\(\)$",
@@ -257,6 +267,42 @@ class EEA:
         m = site.text
         idx = 2
         return n + 1 >= idx
+
+    def _premise_consumed_in_limit_handler(self, site: Site) -> bool:
+        """`<R>.readexactly(<e>.consumed)` sits in `except ... LimitOverrunError as <e>` of a try whose body awaits
+        `<R>.readuntil(...)`, with no suspension point before it in the handler."""
+        f = self.prog.func(site.func)
+        for n in self.I.own_nodes(f):
+            if not (isinstance(n, ast.Call) and n.lineno == site.line and isinstance(n.func, ast.Attribute) and n.func.attr == "readexactly" and len(n.args) == 1):
+                continue
+            a = n.args[0]
+            if not (isinstance(a, ast.Attribute) and a.attr == "consumed" and isinstance(a.value, ast.Name)):
+                return False
+            cur = n
+            handler = None
+            while cur in self.prog.parents and cur is not f.node:
+                cur = self.prog.parents[cur]
+                if isinstance(cur, ast.ExceptHandler):
+                    handler = cur
+                    break
+            if handler is None or handler.name != a.value.id or handler.type is None:
+                return False
+            elts = handler.type.elts if isinstance(handler.type, ast.Tuple) else [handler.type]
+            if not all(norm(x).endswith("LimitOverrunError") for x in elts):
+                return False
+            tr = self.prog.parents.get(handler)
+            if not isinstance(tr, ast.Try):
+                return False
+            recv = norm(n.func.value)
+            if not any(isinstance(x, ast.Call) and isinstance(x.func, ast.Attribute) and x.func.attr == "readuntil" and norm(x.func.value) == recv for b in tr.body for x in ast.walk(b)):
+                return False
+            # nothing awaited before it in the handler
+            for st_ in handler.body:
+                if any(x is n for x in ast.walk(st_)):
+                    return True
+                if has_await_node(st_):
+                    return False
+        return False
 
     def _premise_task_done_follows_get(self, site: Site) -> bool:
         f = self.prog.func(site.func)
